@@ -84,4 +84,10 @@ def alternates : Option Nat → List Cb → Bool
   | some k, .disc j :: rest => k == j && alternates none rest
   | _, _ => false
 
+/-- `server.Write(id, …)`: the connection the data is queued on. After /repo 9ab511e (`checkClosing`) a write fails, as for an
+    unknown id, while the channel of a previous connection of the id is published (its end is still being reported);
+    before, only the table was consulted. -/
+def writeTarget (checkClosing : Bool) (s : St) : Option Nat :=
+  if checkClosing && s.closing.isSome then none else s.entry
+
 end Ocpp.WsIdFine
